@@ -33,6 +33,8 @@ type Case struct {
 	ErrPath      string          `json:"err_path"`
 	ObjectURI    string          `json:"object_uri,omitempty"` // redirect_uri inside a signed request object (reqobj_* paths)
 	Relation     string          `json:"relation"`             // how Requested was derived (label only)
+	ErrStyle     string          `json:"err_style,omitempty"`  // how the storage words its refusals (vkit.Store.refuse)
+	FaultKind    string          `json:"fault_kind,omitempty"` // kind of the injected storage fault on the store_* paths ("" = error)
 }
 
 // ---- generators ---------------------------------------------------------------
@@ -231,9 +233,15 @@ func genCase(t *rapid.T) Case {
 	c.ErrPath = rapid.SampledFrom([]string{
 		"none", "none", "none", "none", "none", "none",
 		"bad_form", "max_age", "unknown_client", "no_client", "no_scope", "bad_prompt", "bad_hint", "prompt_none",
-		"store_create_fail", "store_client_fail_cb", "store_code_fail", "no_login", "unknown_callback",
+		"store_create_fail", "store_client_fail", "store_client_fail_cb", "store_code_fail", "no_login", "unknown_callback",
 		"reqobj_same", "reqobj_other_uri", "reqobj_foreign", "reqobj_unsupported", "reqobj_garbage",
 	}).Draw(t, "errpath")
+	if rapid.Bool().Draw(t, "errstyled") {
+		c.ErrStyle = rapid.SampledFrom(vkit.ErrStyles).Draw(t, "errstyle")
+	}
+	if strings.HasPrefix(c.ErrPath, "store_") {
+		c.FaultKind = rapid.SampledFrom([]string{"", "deadline", "oidc", "oidc-wrapped"}).Draw(t, "faultkind")
+	}
 	if strings.HasPrefix(c.ErrPath, "reqobj") {
 		c.ObjectURI = rapid.SampledFrom([]string{c.Requested, "https://evil.example.net/cb", cl.RedirectURIs[0], "http://localhost:1/cb"}).Draw(t, "objuri")
 	}
@@ -446,7 +454,11 @@ func run(c Case) *vkit.Result {
 	cl := c.Client
 	other := &vkit.ClientSpec{ID: "client-b", Secret: "secret-b", AppType: "web", AuthMethod: "client_secret_basic", GrantTypes: []string{vkit.GCode},
 		ResponseTypes: []string{"code", "id_token", "id_token token"}, RedirectURIs: []string{"https://evil.example.net/cb", "https://other.example.net/cb"}, Keys: map[string]string{"kb": "rsa3"}}
-	pol := vkit.StorePolicy{}
+	pol := vkit.StorePolicy{ErrStyle: c.ErrStyle}
+	fk := c.FaultKind
+	if fk == "" {
+		fk = "error"
+	}
 	if c.ErrPath == "prompt_none" {
 		pol.PromptNoneLoginError = true
 	}
@@ -489,7 +501,9 @@ func run(c Case) *vkit.Result {
 	case "bad_hint":
 		q.Set("id_token_hint", "e30.e30.e30")
 	case "store_create_fail":
-		st.SetFaults(vkit.Fault{Method: "CreateAuthRequest", Kind: "error"})
+		st.SetFaults(vkit.Fault{Method: "CreateAuthRequest", Kind: fk})
+	case "store_client_fail":
+		st.SetFaults(vkit.Fault{Method: "GetClientByClientID", Kind: fk})
 	case "reqobj_same", "reqobj_other_uri", "reqobj_unsupported":
 		q.Set("request", requestObject(c, &cl, "ka", "rsa2"))
 		candidates = append(candidates, c.ObjectURI)
@@ -515,9 +529,9 @@ func run(c Case) *vkit.Result {
 		}
 		switch c.ErrPath {
 		case "store_code_fail":
-			st.SetFaults(vkit.Fault{Method: "SaveAuthCode", Kind: "error"}, vkit.Fault{Method: "CreateAccessToken", Kind: "error"})
+			st.SetFaults(vkit.Fault{Method: "SaveAuthCode", Kind: fk}, vkit.Fault{Method: "CreateAccessToken", Kind: fk})
 		case "store_client_fail_cb":
-			st.SetFaults(vkit.Fault{Method: "GetClientByClientID", Kind: "error"})
+			st.SetFaults(vkit.Fault{Method: "GetClientByClientID", Kind: fk})
 		}
 		id := reqID
 		if c.ErrPath == "unknown_callback" {
